@@ -158,9 +158,9 @@ func StorageRoot(c *Contract) felt.Felt {
 
 func ContractLeaf(c *Contract) felt.Felt {
 	sr := StorageRoot(c)
-	h1 := crypto.Pedersen(&c.ClassHash, &sr)
-	h2 := crypto.Pedersen(&h1, &c.Nonce)
-	return crypto.Pedersen(&h2, &felt.Zero)
+	h1 := refmpt.Pedersen(&c.ClassHash, &sr)
+	h2 := refmpt.Pedersen(&h1, &c.Nonce)
+	return refmpt.Pedersen(&h2, &felt.Zero)
 }
 
 func (s *State) ContractRoot() felt.Felt {
